@@ -87,6 +87,10 @@ pub fn time_actions(c: &Chain, o: &HubObs, full: bool) -> Vec<Action> {
     for u in &c.unbonding {
         crit.push(u.completion);
     }
+    // the instant from which a redelegation destination may be redelegated from again
+    for t in c.redeleg_until.values() {
+        crit.push(*t);
+    }
     crit.sort();
     crit.dedup();
     let now = c.time;
@@ -174,6 +178,11 @@ impl Scenario for HubCore {
                     }
                     prefix.push(advance(1));
                 }
+                "bsei_all_pending" => {
+                    prefix.push(unbond(ALICE, BSEI, 1000 * k));
+                    prefix.push(accrue("val1", USEI, 1000 * k));
+                    prefix.push(update_index(UPDATER));
+                }
                 "one_val" => {
                     cfg.registered = vec!["val1"];
                 }
@@ -240,11 +249,15 @@ impl Scenario for HubCore {
             }
         }
         if self.with_registry {
-            for val in ["val1", "val3"] {
+            for val in ["val1", "val2", "val3"] {
                 if o.registry.iter().any(|x| x == val) {
                     v.push(remove_validator(OWNER, val));
                 } else {
                     v.push(add_validator(OWNER, val));
+                    // the permissionless follow-up for stake that could not be moved at removal time
+                    if c.delegation(HUB, val) > 0 {
+                        v.push(exec(format!("redelegations({})", val), EVE, REG, serde_json::json!({"redelegations":{"address":val}}), &[]));
+                    }
                 }
             }
         }
@@ -718,6 +731,20 @@ fn c06_step(po: &HubObs, a: &Action, out: &Outcome, qo: &HubObs, cx: &mut Cx) {
 // C13 — removing a validator moves its whole stake
 
 fn c13_step(pre: &Chain, po: &HubObs, a: &Action, out: &Outcome, post: &Chain, qo: &HubObs, cx: &mut Cx) {
+    if a.is(REG, "redelegations") && out.ok() {
+        // the manual follow-up obeys the same rule: when the chain allows it, the whole stake moves to registered validators
+        let v = a.exec_parts().unwrap().2["redelegations"]["address"].as_str().unwrap_or("").to_string();
+        let had = pre.delegation(HUB, &v);
+        if had > 0 && pre.can_redelegate(HUB, &v) >= had && !po.registry.iter().any(|x| *x == v) && !po.registry.is_empty() {
+            cx.trigger("c13_redelegations_followup_checked");
+            let moved: u128 = out.fx().iter().map(|e| if let Fx::Redelegate { src, amt, .. } = e { if *src == v { *amt } else { 0 } } else { 0 }).sum();
+            let bad_dst = out.fx().iter().any(|e| matches!(e, Fx::Redelegate { dst, .. } if !qo.registry.iter().any(|x| x == dst)));
+            if moved != had || post.delegation(HUB, &v) != 0 || bad_dst {
+                cx.viol("C13.redelegate", "Redelegations did not move the whole stake of the unregistered validator to registered ones", format!("{}: had {} moved {} left {}", a.label, had, moved, post.delegation(HUB, &v)));
+            }
+        }
+        return;
+    }
     if !a.is(REG, "remove_validator") {
         return;
     }
@@ -824,8 +851,8 @@ fn c19_step(pre: &Chain, po: &HubObs, a: &Action, out: &Outcome, post: &Chain, q
         return;
     }
     if !out.ok() {
-        if via_registry && !out.err().contains("dispatcher") && !out.err().contains("bank:") {
-            return; // the removal itself was refused (last validator, ...): not an index update
+        if via_registry && (out.err().starts_with("registry:") || out.err().starts_with("staking:")) {
+            return; // the removal itself was refused (last validator, ...) or the chain refused the redelegation
         }
         cx.trigger("c19_update_failed");
         let e = out.err();
@@ -918,6 +945,13 @@ fn c19_step(pre: &Chain, po: &HubObs, a: &Action, out: &Outcome, post: &Chain, q
         if grow > hi || grow + dust < hi {
             cx.viol("C19.holders_accrue", "bSei holders' total claimable reward did not grow by the delivered amount", format!("{}: grew {} delivered {} (1e-18 units) dust {}", a.label, grow, hi, dust));
         }
+        // independent of the reward contract's own books: after an update with holders, everything the
+        // reward contract holds is claimable by somebody (up to accumulated dust)
+        let held = cosmwasm_std::Uint256::from(r1.bank) * cosmwasm_std::Uint256::from(ONE);
+        let claimable = r1.total_accrued_fp();
+        if held > claimable + cosmwasm_std::Uint256::from(64u128 * ONE) {
+            cx.viol("C19.holders_accrue", "reward coins in the reward contract are claimable by nobody after an index update", format!("{}: held {} claimable {} (1e-18 units)", a.label, held, claimable));
+        }
     }
 }
 
@@ -970,6 +1004,7 @@ fn c09_probe(c: &Chain, o: &HubObs, cx: &mut Cx) {
     if o.params.paused.unwrap_or(false) || o.delegated == 0 {
         return;
     }
+    crate::unbondlc::c09_matured_probe(c, o, cx);
     for u in [ALICE, BOB] {
         for tok in [BSEI, STSEI] {
             let bal = o.tok_bal(tok, u);
